@@ -62,3 +62,16 @@ Definition C16_post_exact := simplify_exact_post.
 Print Assumptions C16_total.
 Print Assumptions C16_post.
 Print Assumptions C16_open_ends.
+
+(* K3: the distance functions of the model are what /repo's source says now: the terms regenerated
+   from clipper.go:PerpendicDistFromLineSqr64 / PerpendicDistFromLineSqrD (and generics.go:sqr) on
+   every run (Gen/Kernels_gen.v) ARE perp_f64 / perp_f64D, so the theorems above are about the
+   current source, in float64 arithmetic, operation by operation *)
+From Clip Require Import Model.KernelOps Gen.Kernels_gen Model.KernelProofs.
+Theorem C16_distance_from_source : forall p l1 l2,
+  gen_PerpendicDistFromLineSqr64 (px p) (py p) (px l1) (py l1) (px l2) (py l2) = perp_f64 p l1 l2.
+Proof. exact gen_perp64_eq. Qed.
+Theorem C16_distance_D_from_source : forall p l1 l2 : qpt2,
+  gen_PerpendicDistFromLineSqrD (fst p) (snd p) (fst l1) (snd l1) (fst l2) (snd l2) = perp_f64D p l1 l2.
+Proof. exact gen_perpD_eq. Qed.
+Print Assumptions C16_distance_from_source.
